@@ -30,6 +30,7 @@ class TextEval(object):
         self.roles = dict(roles)
         self.value_vars = set()
         self.count_vars = set()
+        self.loop_local = set()
         self.env = {}
         self.problems = []
         self.files = {}          # file variable -> list of pieces written so far
@@ -213,6 +214,8 @@ class TextEval(object):
         if isinstance(st, ast.Assign) and len(st.targets) == 1 and isinstance(st.targets[0], ast.Name):
             v = self.ev(st.value)
             name = st.targets[0].id
+            if v[0] == "list" and self.frames:
+                self.loop_local.add(name)          # a list created afresh in every iteration of the enclosing loop
             if v[0] == "file":
                 self.opened.append((name, v[1]))
                 self.files.setdefault(name, [])
@@ -305,7 +308,7 @@ class TextEval(object):
                     self.problem(st, "repeated group appended in a loop")
                     continue
                 seg = ("many", pats)
-                if self.frames:
+                if self.frames and lst not in self.loop_local:
                     self.problem(st, "append in a nested loop")
                 else:
                     self.env[lst][1].append(seg)
